@@ -219,76 +219,123 @@ func (c *ctx) cacheFacts() *leanFile {
 			return false
 		}
 
-		for _, s := range fd.Body.List {
-			tok := unknown(s)
-			switch x := s.(type) {
-			case *ast.ExprStmt:
-				if m, ok := c.recvCallStmt(s, recv); ok && (m == "RLock" || m == "RUnlock" || m == "Lock" || m == "Unlock") {
-					tok = m
-				}
-			case *ast.AssignStmt:
-				if len(x.Lhs) == 2 && len(x.Rhs) == 1 {
-					a, okA := x.Lhs[0].(*ast.Ident)
-					b, okB := x.Lhs[1].(*ast.Ident)
-					if okA && okB {
-						if ix, ok := unparen(x.Rhs[0]).(*ast.IndexExpr); ok {
-							if f, ok := c.recvField(ix.X, recv); ok && f == "m" && c.sameIdent(ix.Index, key) {
-								tok, val, found = "lookup", a, b
+		depth := 0
+		var walk func(stmts []ast.Stmt)
+		walk = func(stmts []ast.Stmt) {
+			for _, s := range stmts {
+				// a statement `c.helper(args…)` calling another method of the cache with plain identifiers: its body is
+				// read in place, with the helper's receiver and parameters standing for the caller's (one level of nesting)
+				if es, ok := s.(*ast.ExprStmt); ok && depth < 2 {
+					if r, m, call, ok := methodCall(es.X); ok && c.sameIdent(r, recv) {
+						if hd := c.funcDecl("loadingCache", m); hd != nil && hd.Body != nil && recvIdent(hd) != nil {
+							hps := params(hd.Type)
+							plain := len(hps) == len(call.Args) && len(hps) > 0
+							var nk, nv *ast.Ident
+							for i, a := range call.Args {
+								if !plain || hps[i] == nil {
+									plain = false
+									break
+								}
+								switch {
+								case key != nil && c.sameIdent(a, key):
+									nk = hps[i]
+								case val != nil && c.sameIdent(a, val):
+									nv = hps[i]
+								default:
+									plain = false
+								}
 							}
-						} else if r, m, call, ok := methodCall(x.Rhs[0]); ok && m == "load" && c.sameIdent(r, recv) &&
-							len(call.Args) == 1 && c.sameIdent(call.Args[0], key) && (val == nil || c.sameIdent(a, val)) {
-							tok, val, errV = "load", a, b
+							if plain {
+								sr, sk, sv := recv, key, val
+								recv, key, val = recvIdent(hd), nk, nv
+								depth++
+								walk(hd.Body.List)
+								depth--
+								recv, key, val = sr, sk, sv
+								continue
+							}
 						}
 					}
 				}
-			case *ast.IfStmt:
-				if x.Init != nil {
-					break
-				}
-				var ret *ast.ReturnStmt
-				if x.Else == nil && x.Body != nil && len(x.Body.List) == 1 {
-					ret, _ = x.Body.List[0].(*ast.ReturnStmt)
-				}
-				switch {
-				case ret != nil && found != nil && c.sameIdent(x.Cond, found) && len(ret.Results) == 2 &&
-					c.sameIdent(ret.Results[0], val) && isNil(ret.Results[1]):
-					tok = "if-found-return"
-				case ret != nil && errV != nil && len(ret.Results) == 2 && isNil(ret.Results[0]) && c.sameIdent(ret.Results[1], errV):
-					if b, ok := unparen(x.Cond).(*ast.BinaryExpr); ok && b.Op == token.NEQ && c.sameIdent(b.X, errV) && isNil(b.Y) {
-						tok = "if-err-return-nil-err"
+				tok := unknown(s)
+				switch x := s.(type) {
+				case *ast.ExprStmt:
+					if m, ok := c.recvCallStmt(s, recv); ok && (m == "RLock" || m == "RUnlock" || m == "Lock" || m == "Unlock") {
+						tok = m
 					}
-				case writesM(x):
-					tok = "if-evict"
-					evictThen = branch(x.Body)
-					switch e := x.Else.(type) {
-					case *ast.BlockStmt:
-						evictElse = branch(e)
-					case nil:
-					default:
-						evictElse = []string{unknown(e)}
-					}
-					// The condition is stated for the reset branch (the one that replaces c.m by a fresh
-					// map): `if !C { insert } else { reset }` is read as `if C { reset } else { insert }`.
-					elseBlock, _ := x.Else.(*ast.BlockStmt)
-					negate := elseBlock != nil && resets(elseBlock) && !resets(x.Body)
-					condSrc = onesp(c.src(x.Cond))
-					f := boolNNF(x.Cond, negate)
-					if s, ok := c.evictExpr(f, recv); ok {
-						condLean, condKnown, condSrc = s, true, c.boolFormSrc(f)
-						if len(s) > 2 && s[0] == '(' && s[1] == '(' { // drop the outer parentheses of a conjunction
-							condLean = s[1 : len(s)-1]
-						}
-						if negate {
-							evictThen, evictElse = evictElse, evictThen
+				case *ast.AssignStmt:
+					if len(x.Lhs) == 2 && len(x.Rhs) == 1 {
+						a, okA := x.Lhs[0].(*ast.Ident)
+						b, okB := x.Lhs[1].(*ast.Ident)
+						if okA && okB {
+							if ix, ok := unparen(x.Rhs[0]).(*ast.IndexExpr); ok {
+								if f, ok := c.recvField(ix.X, recv); ok && f == "m" && c.sameIdent(ix.Index, key) {
+									tok, val, found = "lookup", a, b
+								}
+							} else if r, m, call, ok := methodCall(x.Rhs[0]); ok && m == "load" && c.sameIdent(r, recv) &&
+								len(call.Args) == 1 && c.sameIdent(call.Args[0], key) && (val == nil || c.sameIdent(a, val)) {
+								tok, val, errV = "load", a, b
+							}
 						}
 					}
+				case *ast.IfStmt:
+					if x.Init != nil {
+						break
+					}
+					var ret *ast.ReturnStmt
+					if x.Else == nil && x.Body != nil && len(x.Body.List) == 1 {
+						ret, _ = x.Body.List[0].(*ast.ReturnStmt)
+					}
+					switch {
+					case ret != nil && found != nil && c.sameIdent(x.Cond, found) && len(ret.Results) == 2 &&
+						c.sameIdent(ret.Results[0], val) && isNil(ret.Results[1]):
+						tok = "if-found-return"
+					case ret != nil && errV != nil && len(ret.Results) == 2 && isNil(ret.Results[0]) && c.sameIdent(ret.Results[1], errV):
+						if b, ok := unparen(x.Cond).(*ast.BinaryExpr); ok && b.Op == token.NEQ && c.sameIdent(b.X, errV) && isNil(b.Y) {
+							tok = "if-err-return-nil-err"
+						}
+					case writesM(x):
+						tok = "if-evict"
+						evictThen = branch(x.Body)
+						switch e := x.Else.(type) {
+						case *ast.BlockStmt:
+							evictElse = branch(e)
+						case nil:
+						default:
+							evictElse = []string{unknown(e)}
+						}
+						// The condition is stated for the reset branch (the one that replaces c.m by a fresh
+						// map): `if !C { insert } else { reset }` is read as `if C { reset } else { insert }`.
+						elseBlock, _ := x.Else.(*ast.BlockStmt)
+						negate := elseBlock != nil && resets(elseBlock) && !resets(x.Body)
+						condSrc = onesp(c.src(x.Cond))
+						f := boolNNF(x.Cond, negate)
+						if s, ok := c.evictExpr(f, recv); ok {
+							condLean, condKnown, condSrc = s, true, c.boolFormSrc(f)
+							if len(s) > 2 && s[0] == '(' && s[1] == '(' { // drop the outer parentheses of a conjunction
+								condLean = s[1 : len(s)-1]
+							}
+							if negate {
+								evictThen, evictElse = evictElse, evictThen
+							}
+						}
+					}
+				case *ast.ReturnStmt:
+					if len(x.Results) == 2 && val != nil && c.sameIdent(x.Results[0], val) && isNil(x.Results[1]) {
+						tok = "return-v-nil"
+					}
 				}
-			case *ast.ReturnStmt:
-				if len(x.Results) == 2 && val != nil && c.sameIdent(x.Results[0], val) && isNil(x.Results[1]) {
-					tok = "return-v-nil"
-				}
+				skeleton = append(skeleton, tok)
 			}
-			skeleton = append(skeleton, tok)
+		}
+		walk(fd.Body.List)
+		// a `return v, nil` that followed the write block in the same function stands before the helper call's
+		// statements are appended; the order of the tokens is normalised: the final return closes the skeleton
+		for i, t := range skeleton {
+			if t == "return-v-nil" && i != len(skeleton)-1 {
+				skeleton = append(append(skeleton[:i:i], skeleton[i+1:]...), t)
+				break
+			}
 		}
 	}
 
